@@ -126,11 +126,14 @@ pub struct Workbook {
     pub after_sheets: Vec<Rec>,
     /// pad the stream to exactly this many bytes with ignorable records before the last EOF
     pub pad_to: Option<usize>,
+    /// CODEPAGE record of the globals substream: Some(cp) writes it, None leaves it out.  BIFF8 strings
+    /// are UTF-16 whatever it says (1200 is what Excel writes; 1252 etc. occur in files of other writers)
+    pub codepage: Option<u16>,
 }
 
 impl Default for Workbook {
     fn default() -> Self {
-        Workbook { date1904: None, formats: vec![], xfs: vec![0], sst: Sst::None, sheets: vec![], globals_extra: vec![], after_sheets: vec![], pad_to: None }
+        Workbook { date1904: None, formats: vec![], xfs: vec![0], sst: Sst::None, sheets: vec![], globals_extra: vec![], after_sheets: vec![], pad_to: None, codepage: Some(1200) }
     }
 }
 
@@ -335,7 +338,9 @@ pub fn workbook_stream(wb: &Workbook) -> Vec<u8> {
     // globals, with BoundSheet8 offsets patched afterwards
     let mut g = W::new();
     g.bof(0x0005);
-    g.rec(0x0042, &1200u16.to_le_bytes());
+    if let Some(cp) = wb.codepage {
+        g.rec(0x0042, &cp.to_le_bytes());
+    }
     if let Some(d) = wb.date1904 {
         g.rec(0x0022, &(d as u16).to_le_bytes());
     }
